@@ -63,6 +63,7 @@ def run_try_undo(w, unchecked):
         body = ABlock('B', ALL, may_continue=True)
         handler = ABlock('H', ALL & ~ExitMode.DEFEAT, may_continue=True)
         blk = ast.TryBlock(SPAN.start, body, ast.UndoBlock(SPAN.start, handler))
+        L.blocks_may_defeat_silently = ('B',)
         out = L.guarded_emit(lambda: cg.gen_block(blk))
         if out is None: return res
         instrs, lines, _ = out; L.lines = lines
@@ -99,6 +100,9 @@ def run_try_undo(w, unchecked):
               {'formula': 'try B undo H = exactly one of B / H; H iff a run of B from the entry state reaches defeat, and then nothing of B is observable; '
                           'fp, ap, defeat at the end as at try entry', 'message': '; '.join(sorted(set(problems))), 'leaves': len(leaves)})
         if not unchecked: L.prove_all('SAFE', eng.safety, ('C04',))
+        from contracts.lem_block import modes_enum
+        L.functions.update(['hidc.ast.blocks.TryBlock.exit_modes', 'hidc.ast.blocks.UndoBlock.exit_modes'])
+        modes_enum(L, lambda mb, mh: ast.TryBlock(SPAN.start, ABlock('B', mb), ast.UndoBlock(SPAN.start, ABlock('H', mh))), ('B', 'H'), silent_defeat=('B',))
     finally:
         L.close()
     return res
@@ -121,6 +125,8 @@ def run_try_stop(w, unchecked):
         body = ABlock('B', ALL, may_continue=True)
         handler = ABlock('H', ALL & ~ExitMode.DEFEAT, may_continue=True)
         blk = ast.TryBlock(SPAN.start, body, ast.StopBlock(SPAN.start, handler))
+        L.children_run_with_changed_defeat = True      # this construct sets the defeat word on purpose; checked explicitly below
+        L.blocks_may_defeat_silently = ('B',)
         out = L.guarded_emit(lambda: cg.gen_block(blk))
         if out is None: return res
         instrs, lines, _ = out; L.lines = lines
@@ -161,6 +167,9 @@ def run_try_stop(w, unchecked):
         if problems: det['replay'] = replay_stop_then_undo(w, unchecked)
         L.add('LEAVES', 'failed' if problems else 'discharged', t0, ('C02', 'C03', 'C08'), det)
         if not unchecked: L.prove_all('SAFE', eng.safety, ('C04',))
+        from contracts.lem_block import modes_enum
+        L.functions.update(['hidc.ast.blocks.TryBlock.exit_modes', 'hidc.ast.blocks.StopBlock.exit_modes'])
+        modes_enum(L, lambda mb, mh: ast.TryBlock(SPAN.start, ABlock('B', mb), ast.StopBlock(SPAN.start, ABlock('H', mh))), ('B', 'H'), silent_defeat=('B',))
     finally:
         L.close()
     return res
@@ -440,7 +449,7 @@ def run_defeat_prims(virtual, w, unchecked):
 
 def tasks(tier):
     out = []
-    P = ('C01', 'C02', 'C03', 'C04', 'C08', 'C09', 'C10')
+    P = ('C01', 'C02', 'C03', 'C04', 'C08', 'C09', 'C10', 'C16')
     for w in ((2,) if tier == 'quick' else (2, 3, 4, 8)):
         for unchecked in ((False,) if tier == 'quick' else (False, True)):
             out.append(task(MOD, 'run_try_undo', P, label=f'time/try-undo/w{w}/u{int(unchecked)}', w=w, unchecked=unchecked, cost=3))
